@@ -16,7 +16,7 @@ JOBS = [
 # NDSize: every size_t index, every rank the type invariant allows, aliasing operands
 JOBS += [j for j in ND_JOBS if 'rank=' not in j['name']]
 JOBS += [j for j in c10.JOBS if j['name'] in ('FormatVersion_index', 'FormatVersion_lt')]
-from cxx2c import Tok, P, fire, match_close
+from cxx2c import Tok, P, fire, match_close, ExtractError
 def string_from_cstr(ctx, toks):
     """data[i] = EXPR;  with data a pointer to std::string and EXPR of type char*  ->  nstring_assign_cstr(&data[i], EXPR);   (std::string::operator=(const char*))"""
     out = []; i = 0
@@ -34,7 +34,55 @@ def string_from_cstr(ctx, toks):
 UNITS['string_writer_finish_elem'] = dict(file='backend/hdf5/h5x/H5Object.hpp', locator=r'void\s+finish\s*\(', classes=['nstring'], pre_rules=[string_from_cstr],
     region=dict(start=r'data\[i\]\s*=', end=r';(?=\s*\}\s*\})', params=[('std::string *', 'data'), ('char **', 'buffer'), ('ndsize_t', 'i')]))
 JOBS.append(dict(name='string_writer_finish_elem', bodies=['string_writer_finish_elem'], enforce=['string_writer_finish_elem'], replace=[], includes=['c16_strings.h'], expect_kinds=['postcondition'], timeout=300))
-SPEC = dict(new_safety_failures_are_violations=True, contracts=['c07_leaf.h', 'nd.h', 'c10_version.h', 'c16_strings.h'], stubs=['std_algo.h'], include_order=['c07_leaf.h', 'nd.h', 'c10_version.h', 'std_algo.h'], units=UNITS, jobs=JOBS,
+def shared_ptrs(ctx, toks):
+    """std::shared_ptr<FeatureHDF5> / <IFeature> -> FeatureP;  std::shared_ptr<base::IDataArray> -> DataArrayP;  std::make_shared<FeatureHDF5>(file(), block(), G) -> mk_FeatureP(G);
+       P->name() == KEY / P->id() == KEY  (string comparison through the pointer) -> P.name_is(KEY) / P.id_is(KEY);  OPT.get() -> *OPT"""
+    from cxx2c import seq_at, tokenize, split_args
+    MAP = {'FeatureHDF5': 'FeatureP', 'IFeature': 'FeatureP', 'IDataArray': 'DataArrayP'}
+    out = []; i = 0
+    def skipq(k):
+        while k and out[k - 1].t in ('std', '::', 'base'): k -= 1
+        return k
+    while i < len(toks):
+        t = toks[i]
+        if t.t == 'shared_ptr' and toks[i + 1].t == '<':
+            j = i + 2
+            while toks[j].t != '>': j += 1
+            ty = MAP.get(toks[j - 1].t)
+            if not ty: raise ExtractError('shared_ptr of unknown class %s' % toks[j - 1].t)
+            k = skipq(len(out)); ws = out[k].ws if k < len(out) else t.ws; del out[k:]
+            out.append(Tok('id', ty, ws)); i = j + 1; fire(ctx, 'shared-ptr-handle'); continue
+        if t.t == 'make_shared' and toks[i + 1].t == '<':
+            j = i + 2
+            while toks[j].t != '>': j += 1
+            e = match_close(toks, j + 1)
+            args = split_args(toks[j + 2:e])
+            k = skipq(len(out)); ws = out[k].ws if k < len(out) else t.ws; del out[k:]
+            out.extend(tokenize('%smk_FeatureP(' % ws)); out.extend(args[-1]); out.append(P(')', '')); i = e + 1; fire(ctx, 'make-shared'); continue
+        if t.k == 'id' and seq_at(toks, i + 1, ['->', 'name', '(', ')', '==']) or t.k == 'id' and seq_at(toks, i + 1, ['->', 'id', '(', ')', '==']):
+            which = toks[i + 2].t
+            out.extend(tokenize('%s%s.%s_is(%s)' % (t.ws, t.t, which, toks[i + 6].t))); i += 7; fire(ctx, 'string-compare-through-pointer'); continue
+        out.append(t); i += 1
+    toks = out; out = []; i = 0
+    while i < len(toks):
+        t = toks[i]
+        if t.k == 'id' and seq_at(toks, i + 1, ['.', 'get', '(', ')']) and t.t in ('group',):
+            out.extend(tokenize('%s(*%s)' % (t.ws, t.t))); i += 5; fire(ctx, 'optional-get'); continue
+        out.append(t); i += 1
+    return out
+BT = 'backend/hdf5/BaseTagHDF5.cpp'; BTH = 'backend/hdf5/BaseTagHDF5.hpp'
+FCL = ['BaseTagHDF5', 'H5Group', 'FeatureP', 'DataArrayP', 'nstring']
+UNITS['BaseTagHDF5_getFeature_key'] = dict(file=BT, locator=r'std::shared_ptr<IFeature>\s+BaseTagHDF5::getFeature\s*\((?=\s*const\s+std::string)', cls='BaseTagHDF5', cls_file=BTH, classes=FCL, pre_rules=[shared_ptrs],
+    member_functors={'feature_group': 'BaseTagHDF5_feature_group'}, bounded_twin=True,
+    loops={0: '__CPROVER_assigns(i, feature)\n__CPROVER_loop_invariant(i <= gh_nfeat && feature.null == 1 && (ghost_k < i ==> !FT_MATCH(ghost_k)))\n__CPROVER_decreases(gh_nfeat - i)'})
+UNITS['BaseTagHDF5_getFeature_index'] = dict(file=BT, locator=r'std::shared_ptr<IFeature>\s+BaseTagHDF5::getFeature\s*\((?=\s*ndsize_t\s+index)', cls='BaseTagHDF5', cls_file=BTH, classes=FCL, pre_rules=[shared_ptrs],
+    member_functors={'feature_group': 'BaseTagHDF5_feature_group'}, member_calls={'getFeature': 'BaseTagHDF5_getFeature_bykey'})
+FTX = 'int gh_has_group, gh_direct_has; long gh_direct_grp; size_t gh_nfeat; int *gh_da_null, *gh_da_name, *gh_da_id;\n'
+JOBS += [dict(name='BaseTagHDF5_getFeature_key', bodies=['BaseTagHDF5_getFeature_key'], enforce=['BaseTagHDF5_getFeature_key'], replace=[], includes=['c16_feature.h'], extra_c=FTX, loop_contracts=True,
+              expect_kinds=['postcondition', 'loop_invariant_base', 'loop_invariant_step'], timeout=300),
+         dict(name='BaseTagHDF5_getFeature_index', bodies=['BaseTagHDF5_getFeature_index'], enforce=['BaseTagHDF5_getFeature_index'], replace=[], includes=['c16_feature.h'], extra_c=FTX,
+              expect_kinds=['postcondition'], timeout=300)]
+SPEC = dict(new_safety_failures_are_violations=True, contracts=['c07_leaf.h', 'nd.h', 'c10_version.h', 'c16_strings.h', 'c16_feature.h'], stubs=['std_algo.h'], include_order=['c07_leaf.h', 'nd.h', 'c10_version.h', 'std_algo.h'], units=UNITS, jobs=JOBS,
             trusted_base=c07.SPEC['trusted_base'] + ND_TRUST,
             assumptions=['type invariants only: enum parameters hold an enumerator, vectors have at most 2^20 elements, NDSize rank <= 32 with dims of exactly rank elements',
                          'sampled axis: interval and offset are grid constants (symbolic division does not terminate); the position is any double',
